@@ -265,7 +265,13 @@ def build(p: dict, scratch: str):
         vinfo.append(_vi("dead2", DT.FLOAT, [d0, 3], tag="vi_dead2"))
     # --- subgraph with its own initializer and metadata
     if "if" in feats:
-        tb = helper.make_graph([_node("Add", [cur, "sub_k"], ["t_out"], "n_then_add")], "then_g", [], [_vi("t_out", DT.FLOAT, [d0, 3])],
+        then_nodes = [_node("Add", [cur, "sub_k"], ["t_out"], "n_then_add")]
+        if "aside_kernel" in feats and aside:
+            # an operation of the functions' domain for which NO expansion is supplied (a real custom kernel), used only inside a
+            # body: replacing the other functions must leave it - and the import of its domain - alone
+            then_nodes = [_node("Kernel", [cur], ["t_k"], "n_then_kernel", domain="vf.fn"),
+                          _node("Add", ["t_k", "sub_k"], ["t_out"], "n_then_add")]
+        tb = helper.make_graph(then_nodes, "then_g", [], [_vi("t_out", DT.FLOAT, [d0, 3])],
                                initializer=[make_tensor("sub_k", 1, [3], "raw", rot=2)])
         tb.doc_string = "doc of then graph"
         _meta(tb, "then_graph")
@@ -349,6 +355,8 @@ def gen_params(rng, idx: int):
         feats.append(forced)
     if idx % 4 == 3:
         feats = [f for f in feats if f != "functions"] + ["aside_functions"]
+        if idx % 8 == 7:
+            feats += ["aside_kernel"] + ([] if "if" in feats else ["if"])
     legal = [d for d in ALL_DTYPES if IR_FOR_OPSET[opset] >= MIN_IR.get(d, 3)]
     rng.shuffle(legal)
     # rotate through all dtypes over consecutive models: ~9 per model
